@@ -12,16 +12,19 @@ pub struct Corpus {
     total: u64,
     /// a corpus given as an explicit program list instead of a grammar
     fixed: Option<Vec<E>>,
+    /// T7 is generated on demand (depth, atoms, codes of the programs kept by the filter): a materialised list of
+    /// the depth-4 corpus took 2 GB in each of the 16 workers
+    lazy7: Option<(usize, Vec<E>, Vec<u32>)>,
 }
 
 impl Corpus {
     fn new(name: &'static str, mut g: Grammar, nt: usize, max: usize) -> Corpus {
         g.prepare(max);
         let total = g.count_upto(nt, max) as u64;
-        Corpus { name, g, nt, max, total, fixed: None }
+        Corpus { name, g, nt, max, total, fixed: None, lazy7: None }
     }
     pub fn from_list(name: &'static str, list: Vec<E>) -> Corpus {
-        Corpus { name, g: Grammar::new(1), nt: 0, max: 0, total: list.len() as u64, fixed: Some(list) }
+        Corpus { name, g: Grammar::new(1), nt: 0, max: 0, total: list.len() as u64, fixed: Some(list), lazy7: None }
     }
     pub fn len(&self) -> u64 {
         self.total
@@ -30,13 +33,20 @@ impl Corpus {
         if let Some(list) = &self.fixed {
             return list[i as usize].clone();
         }
+        if let Some((depth, atoms, codes)) = &self.lazy7 {
+            let c = codes[i as usize] as usize;
+            let mut e = T7_CX.with(|cx| nest7(cx, *depth, c / atoms.len(), &atoms[c % atoms.len()]));
+            let mut k = 1;
+            number_nested(&mut e, &mut k);
+            return e;
+        }
         let mut e = self.g.nth(self.nt, i as u128);
         let mut n = 1;
         number_nested(&mut e, &mut n);
         e
     }
     pub fn count_of_size(&self, n: usize) -> u64 {
-        if self.fixed.is_some() {
+        if self.fixed.is_some() || self.lazy7.is_some() {
             return if n == 0 { self.total } else { 0 };
         }
         self.g.count(self.nt, n) as u64
@@ -507,27 +517,36 @@ fn contexts() -> Vec<Box<dyn Fn(E) -> E>> {
 pub fn t7(depth: usize, atoms: Vec<E>) -> Corpus {
     let cx = contexts();
     let n = cx.len();
-    let mut list = vec![];
+    let mut codes: Vec<u32> = vec![];
     let total = n.pow(depth as u32);
+    assert!((total * atoms.len()) < u32::MAX as usize);
     for code in 0..total {
-        for a in &atoms {
-            let mut e = a.clone();
-            let mut c = code;
-            for _ in 0..depth {
-                e = cx[c % n](e);
-                c /= n;
-            }
+        for (ai, a) in atoms.iter().enumerate() {
+            let e = nest7(&cx, depth, code, a);
             // an else-chain whose last arm is conditional is the recorded C01/C06 finding (covered with its canonical
             // witness by T3): such programs are left out here
             if ends_chain_with_conditional(&e) {
                 continue;
             }
-            let mut k = 1;
-            number_nested(&mut e, &mut k);
-            list.push(e);
+            codes.push((code * atoms.len() + ai) as u32);
         }
     }
-    Corpus::from_list("T7", list)
+    Corpus { name: "T7", g: Grammar::new(1), nt: 0, max: 0, total: codes.len() as u64, fixed: None, lazy7: Some((depth, atoms, codes)) }
+}
+
+thread_local! {
+    static T7_CX: Vec<Box<dyn Fn(E) -> E>> = contexts();
+}
+
+fn nest7(cx: &[Box<dyn Fn(E) -> E>], depth: usize, code: usize, atom: &E) -> E {
+    let n = cx.len();
+    let mut e = atom.clone();
+    let mut c = code;
+    for _ in 0..depth {
+        e = cx[c % n](e);
+        c /= n;
+    }
+    e
 }
 
 pub fn ends_chain_with_conditional(e: &E) -> bool {
